@@ -398,6 +398,12 @@ example : hasSegIdsAtTimePoints exVol [1, 1] [1, 4] axesT2 = .ok ⟨false, [.mis
 example : hasSegIdsAtTimePoints exVol [0, -1] [9, 2] axesT2 =
     .ok ⟨false, [.missingLabel 9 0, .timeOutOfBounds (-1)]⟩ := by decide
 example : hasSegIdsAtTimePoints exVol [2] [2] axesT2 = .ok ⟨false, [.timeOutOfBounds 2]⟩ := by decide
+/-- hypotheses of the message theorems are satisfiable -/
+example : ∃ t ∈ [(0 : Int), -1], ¬ TimeIn exVol (timeIndex axesT2) t := by decide
+example : ¬ CoordOK exVol [d 1, d 1, d 1] [d (-1), d 0, d 1] := by
+  intro h
+  have := (allInRange_iff _ _).2 h.2
+  revert this; decide
 /-- a time axis beyond the rank of the volume -/
 example : hasSegIdsAtTimePoints exVol [0] [1]
     (some [⟨none, none⟩, ⟨none, none⟩, ⟨none, none⟩, ⟨some "time", none⟩]) = .ok ⟨false, [.timeOutOfBounds 0]⟩ := by
